@@ -128,6 +128,13 @@ pub fn install_panic_hook() {
     }));
 }
 
+/// a panic whose location is in the simulator's own sources (reported relative to the crate:
+/// "src/...") is a harness error; the code under test reports absolute paths (/repo/src/...,
+/// the cargo registry, the standard library)
+fn is_harness_panic(msg: &str) -> bool {
+    msg.contains("/verif/sim/src") || msg.contains("panicked at src/")
+}
+
 pub fn execute_caught<S: Scenario>(case: &S::Case, ctx: &Ctx) -> Outcome {
     match catch_unwind(AssertUnwindSafe(|| S::execute(case, ctx))) {
         Ok(o) => o,
@@ -138,7 +145,7 @@ pub fn execute_caught<S: Scenario>(case: &S::Case, ctx: &Ctx) -> Outcome {
             let msg = LAST_PANIC.with(|p| p.borrow().clone());
             let mut o = Outcome::default();
             // panics that originate in the harness itself are harness errors
-            let oracle = if msg.contains("/verif/sim/src") { "harness-panic" } else { "no-panic" };
+            let oracle = if is_harness_panic(&msg) { "harness-panic" } else { "no-panic" };
             let short: String = msg.chars().take(400).collect();
             o.violation = Some(Violation::new(oracle, format!("panic: {short}")));
             o
@@ -255,7 +262,7 @@ pub fn worker<S: Scenario>(o: &Opts) {
         let case = match generate_caught::<S>(o.seed, o.tier, run) {
             Ok(c) => c,
             Err(msg) => {
-                let oracle = if msg.contains("/verif/sim/src") { "harness-panic" } else { "no-panic" };
+                let oracle = if is_harness_panic(&msg) { "harness-panic" } else { "no-panic" };
                 sum.violations.push(FoundViolation {
                     run,
                     run_seed: rs,
